@@ -205,7 +205,8 @@ Workload GenerateWorkload(Rng rng, int size_class, int force_kind) {
     if (c < 4) {
       w.qb[t] = def_q[t];
     } else if (c < 6) {
-      w.qb[t] = static_cast<int>(r.Range(1, 30));
+      // (Above ~20 bits the encoder sizes entropy tables by 2^bits: gigabytes.)
+      w.qb[t] = static_cast<int>(r.Range(1, 18));
     } else {
       w.qb[t] = 0;
     }
